@@ -881,32 +881,31 @@ func flLineShape(p *Path, res *Expr, searchAtom *Expr) string {
 	default:
 		return "the search does not start at r+s: " + lo.String()
 	}
-	// expected end = r + (i + s) + 1
-	i := call.String()
-	iPlusS := i
+	// expected end = r + (i + s) + 1, compared as canonical sums
+	rcurE := lo
 	if sExpr != "0" {
-		iPlusS = "(" + i + " + " + sExpr + ")"
+		rcurE = lo.Args[0]
 	}
-	rcur := lo.String()
+	one := mkConstInt(1, nil)
+	var iPlusS *Expr = call
 	if sExpr != "0" {
-		rcur = lo.Args[0].String()
+		iPlusS = &Expr{Op: OpBin, Tok: token.ADD, Args: []*Expr{call, lo.Args[1]}}
 	}
-	wantEnd := "((" + rcur + " + " + iPlusS + ") + 1)"
-	wantAdv := "(" + rcur + " + (" + iPlusS + " + 1))"
+	want := (&Expr{Op: OpBin, Tok: token.ADD, Args: []*Expr{&Expr{Op: OpBin, Tok: token.ADD, Args: []*Expr{rcurE, iPlusS}}, one}}).linear()
 	if res.Op != OpSlice || !strings.HasPrefix(res.Args[0].String(), "&r.buf") || res.Args[1] == nil || res.Args[2] == nil {
 		return "the returned line is not a slice of the buffer: " + res.String()
 	}
-	if res.Args[1].String() != rcur || res.Args[2].String() != wantEnd {
-		return "the returned line is " + res.String() + ", expected buf[" + rcur + ":" + wantEnd + "]"
+	if res.Args[1].linear() != rcurE.linear() || res.Args[2].linear() != want {
+		return "the returned line is " + res.String() + ", expected buf[r : r+s+i+1] with i the result of the newline search in buf[r+s:w]"
 	}
 	adv := false
 	for _, ev := range p.Events {
-		if ev.Kind == EvStore && strings.HasSuffix(ev.Addr.String(), "r.r") && ev.Val.String() == wantAdv {
+		if ev.Kind == EvStore && strings.HasSuffix(ev.Addr.String(), "r.r") && ev.Val.linear() == want {
 			adv = true
 		}
 	}
 	if !adv {
-		return "the read cursor is not advanced by i+1 (" + wantAdv + ")"
+		return "the read cursor is not advanced to the end of the returned line (r + s + i + 1)"
 	}
 	return ""
 }
